@@ -312,6 +312,28 @@ def rule_r4(ctx):
         ctx.r.ok(rid, "lines are formatted as 'name: value'", f.loc(fmts[0]))
     else:
         ctx.r.violation(rid, key_of(f, None, "line-format"), "header lines are no longer formatted by the '%s: %s' template", f.loc())
+    # ... one line per stored pair: what is formatted is the header list itself, at most sorted - nothing that can drop
+    # or merge entries (set(), dict.fromkeys, a filter) stands between the list and the lines
+    for fm in fmts:
+        src = None
+        for x in ast.walk(f.node):
+            if isinstance(x, (ast.ListComp, ast.GeneratorExp)) and any(y is fm for y in ast.walk(x.elt)) and len(x.generators) == 1:
+                src, flt = x.generators[0].iter, x.generators[0].ifs
+            elif isinstance(x, ast.For) and any(y is fm for st in x.body for y in ast.walk(st)):
+                src, flt = x.iter, []
+        if src is None:
+            continue
+        e = resolve_locals(f, src) if isinstance(src, ast.Name) else src
+        e = e if e is not None else src
+        if isinstance(e, ast.Call) and dotted(e.func) == "sorted" and e.args:
+            inner = e.args[0]
+            inner = (resolve_locals(f, inner) or inner) if isinstance(inner, ast.Name) else inner
+        else:
+            inner = e
+        if dotted(inner) in ("self.response_headers", "response_headers") and not flt:
+            ctx.r.ok(rid, "every stored (name, value) pair becomes one line (the list itself, sorted)", f.loc(fm))
+        else:
+            ctx.r.violation(rid, key_of(f, None, "lines-not-from-the-list"), "the header lines are produced from `%s`, not from the header list itself: entries the application supplied can be dropped or merged (repeated fields such as Set-Cookie or Warning)" % norm(inner)[:60], f.loc(fm))
     # server-added fields: values are constants, str(int), ident or the date helper
     for c in ast.walk(f.node):
         if isinstance(c, ast.Call) and dotted(c.func) == "self.response_headers.append" and c.args and isinstance(c.args[0], ast.Tuple) and len(c.args[0].elts) == 2:
